@@ -196,6 +196,21 @@ let run_codec () =
         | _ -> "?" in
       print_endline out) (read_lines ())
 
+(* ---- restart mode (Model/Restart.v): which registrations / spawns / definitions come back ---- *)
+let run_restart by_ctx =
+  let fs = List.filter_map (fun line ->
+      match List.filter (fun s -> s <> "") (String.split_on_char ' ' (String.trim line)) with
+      | ["R"; id; ctx; name; kind; rf] ->
+        let k = match kind with
+          | "register" -> KRegister | "unregister" -> KUnregister | "unregistered" -> KUnregistered
+          | "spawn" -> KSpawn | "spawn.error" -> KSpawnError | "define" -> KDefine | _ -> KOther in
+        Some { r_id = id_of id; r_ctx = id_of ctx; r_name = bytes_of_xhex name; r_kind = k; r_ref = opt id_of rf }
+      | _ -> None) (read_lines ()) in
+  let pr tag l = print_endline (String.concat " " (tag :: List.map (fun f -> str_of_id f.r_id) l)) in
+  pr "handlers" (compact_handlers by_ctx fs); pr "spec_handlers" (spec_handlers fs);
+  pr "generators" (compact_generators by_ctx fs); pr "spec_generators" (spec_generators fs);
+  pr "commands" (compact_commands by_ctx fs); pr "spec_commands" (spec_commands fs)
+
 (* `gen-sched <locked 0|1> <seed> <steps> <finish 0|1>`: stdin = configuration lines;
    stdout = schedule with expectations.
    `labels-sched <locked>`: stdin = configuration lines followed by "label idx" lines. *)
@@ -205,6 +220,7 @@ let () =
   | [_; "http"; fixed] -> run_http (fixed = "1")
   | [_; "handler"] -> run_handler ()
   | [_; "codec"] -> run_codec ()
+  | [_; "restart"; by_ctx] -> run_restart (by_ctx = "1")
   | [_; "gen-sched"; locked; seed; steps; finish] ->
     let cfg = Schedgen.parse_cfg (read_lines ()) in
     List.iter print_endline
